@@ -134,6 +134,19 @@ def run_batch(ctx, exe, specs, timeout_s=20):
     return out
 
 
+def enclosing_function(where):
+    """file:line -> name of the C function whose body contains the line (definitions start in column 0)"""
+    m = re.match(r"(.+):(\d+)", where)
+    if not m or not os.path.exists(m.group(1)):
+        return None
+    lines = open(m.group(1), errors="replace").read().splitlines()
+    for i in range(min(int(m.group(2)), len(lines)) - 1, -1, -1):
+        mm = re.match(r"^[A-Za-z_][\w\s\*]*?\b(\w+)\s*\([^;]*$", lines[i])
+        if mm and mm.group(1) not in ("if", "while", "for", "switch", "return"):
+            return mm.group(1)
+    return None
+
+
 class Sym:
     """abort-site offsets -> function names (addr2line on the harness binary)"""
     def __init__(self, exe):
@@ -150,9 +163,21 @@ class Sym:
             r = sh(["addr2line", "-f", "-i", "-e", str(self.exe), hex(self.base + int(off, 16))])
             ls = [l.strip() for l in r.stdout.splitlines()]
             fns = ls[0::2] or ["?"]
-            ok = [f for f in fns if f in ALLOWED_ABORT]       # inlined frames count (maybe_resize is inlined)
-            self.cache[off] = (ok[0] if ok else fns[0], ls[1] if len(ls) > 1 else "?")
+            where = ls[1] if len(ls) > 1 else "?"
+            src = enclosing_function(where)          # maybe_resize is inlined: trust the source position
+            if src:
+                fns = [src] + fns
+            ok = [f for f in fns if f in ALLOWED_ABORT]
+            self.cache[off] = (ok[0] if ok else fns[0], where)
         return self.cache[off]
+
+
+def first_failure(run):
+    for l in run.A:
+        p = l.split()
+        if not re.match(r"-?\d+$", p[-1]):
+            return re.sub(r"_cb$|\(sync\)$", "", p[1])
+    return "none"
 
 
 def judge(ctx, run, base, sym, stats):
@@ -190,9 +215,20 @@ def judge(ctx, run, base, sym, stats):
         kind, _, detail = v.partition(" ")
         key = kind
         if kind == "bad-errcode":
-            key = "bad-errcode:" + re.sub(r"_cb$|\(sync\)$", "", detail.split()[0]) + ":" + detail.split()[-1].replace("UV_", "")
+            key = "bad-errcode:" + re.sub(r"_cb$|\(sync\)$", "", detail.split()[0]).replace("fs_pread", "fs_read") + ":" + detail.split()[-1].replace("UV_", "")
         elif kind == "callbacks-owed":
-            key = "callbacks-owed:" + detail.split()[0]
+            key = "callbacks-owed:" + detail.split()[0] + ":" + first_failure(run)
+        elif kind == "fd-table":
+            def objs(part):
+                ts = [x.split("=", 1)[1] for x in part.split() if "=" in x]
+                return sorted("file" if t.startswith("/") else re.sub(r"[\[\]0-9]+|^anon_inode:|:$", "", t) for t in ts)
+            mb = re.search(r"before\[(.*?)\] after\[(.*?)\]", detail)
+            b, a = objs(mb.group(1)), objs(mb.group(2))
+            for x in b:
+                if x in a: a.remove(x)
+            key = "fd-leak:" + ("+".join(a) or "lost") + ":" + first_failure(run)
+        elif kind in ("alloc-leak", "lsan-leak", "active-reqs", "loop-alive", "loop-close", "stall", "invalid-free"):
+            key = kind + ":" + first_failure(run)
         out.append((key, v[:400]))
     # transparent faults (EINTR, would-block on data transfer calls): same observable outcome
     fin = run.final
